@@ -131,7 +131,15 @@ def chained_assignment():
     return _pkg("wfr", [m]), {}
 
 
-FIXED_BUILDERS = {f.__name__: f for f in [two_readwrite_properties, enum_with_method, chained_assignment]}
+def keyword_module_segment():
+    """fix 80edd16: the placeholder stub of a class of the module `enum` began with `package enum` (a keyword, not back-quoted)"""
+    c = Cls("Perm001", bases=["Flag"], base_refs=[("Flag", "enum", False)], attrs=[Attr("READ_002", None, "1")],
+            methods=[Func("describe_003", [], ret=Ann("str"))])
+    m = Module("wfs/mod_a.py", "wfs.mod_a", classes=[c], funcs=[Func("f004", [], ret=Ann("int"))])
+    return _pkg("wfs", [m]), {}
+
+
+FIXED_BUILDERS = {f.__name__: f for f in [two_readwrite_properties, enum_with_method, chained_assignment, keyword_module_segment]}
 
 BUILDERS = {f.__name__: f for f in [enum_without_publicity_test, property_tuple_as_union, callable_attribute_untyped,
                                     none_result_suppresses_list, typevar_typed_attribute_dropped, private_class_as_type,
